@@ -235,7 +235,7 @@ def check_elide_primitive(ctx, inst):
         ctx.ok(inst, ctx.site(b), 'elide(): Elided -> self; every other case -> Elided(digest(self)) (%d case valuations)' % len(variants))
 
 
-def check_obscure_region(ctx, inst):
+def check_obscure_region(ctx, inst, arms=None):
     """C03.2/C02.2: each action arm applies a whole-element sink to self; no recursion inside."""
     F = ctx.F
     b = obscure_fn(ctx, inst)
@@ -266,6 +266,8 @@ def check_obscure_region(ctx, inst):
     t = b.term(sw[0])
     tv = dict((v, bb) for v, bb in t['targets'])
     for idx, name in enumerate(action_variants):
+        if arms is not None and name not in arms:
+            continue
         if idx not in tv:
             if block_is_unreachable(b, t['otherwise']):
                 ctx.fail(inst, ctx.site(b, sw[0]), 'no arm for action %s' % name, key='%s|noarm|%s' % (inst, name))
@@ -405,6 +407,18 @@ def check_rebuild(ctx, inst, inst_rec):
 
     rdefs = ret_defs(tb)
     exits = []
+    # exits that belong to the obscure region (the arms of the action dispatch; with a single action, the elide sink)
+    region_exits = set()
+    sw = [bi for bi, dt in switch_on(tb, b, lambda d: strip_sites(d) == ('discr', ('param', 4)))]
+    if len(sw) == 1:
+        tsw = b.term(sw[0])
+        for v, _bb in list(tsw['targets']) + [('otherwise', None)]:
+            for bi2, si2, _t in arm_ret_values(b, tb, sw[0], v):
+                region_exits.add((bi2, si2))
+    else:
+        for bi2, si2, t2 in rdefs:
+            if m_call(t2, name='elide', self_suffix='Envelope') is not None or m_call(t2, name='new_elided') is not None:
+                region_exits.add((bi2, si2))
     for bi, si, t in rdefs:
         site = ctx.site(b, bi, si)
         st = strip_sites(t)
@@ -453,6 +467,10 @@ def check_rebuild(ctx, inst, inst_rec):
         # obscure-region exits are judged by check_obscure_region
         if contains(t, lambda x: rec_call(x, h) is not None):
             ctx.fail(inst, site, 'recursive result rebuilt in an unrecognised way: %s' % fmt(t), key=inst + '|unknown')
+        elif (bi, si) not in region_exits:
+            # neither self, nor a same-case rebuild over recursed children, nor one of the action arms' whole-element sinks
+            ctx.fail(inst, site, 'exit outside the obscure region returns %s: neither self unchanged nor the same case rebuilt over its recursed children' % fmt(t),
+                     key=inst + '|foreign|' + fmt(st)[:80])
     for k in CHILD_KINDS:
         n = kinds_seen.get(k, 0)
         if n == 1:
